@@ -11,3 +11,11 @@ from .client import *
 from .server import *
 
 from .._generated.net import *
+
+# Star-imports also copy sub-module attributes of the imported packages, which can shadow this
+# package's own sub-modules; re-bind them to the modules the import system resolved.
+import sys as _sys
+
+packet = _sys.modules[__name__ + ".packet"]
+client = _sys.modules[__name__ + ".client"]
+server = _sys.modules[__name__ + ".server"]
